@@ -76,4 +76,8 @@ theorem akeys_areplace {β : Type} (n : String) (v : β) (l : List (String × β
 theorem akeys_append {β : Type} (l r : List (String × β)) : akeys (l ++ r) = akeys l ++ akeys r := by
   simp [akeys]
 
+@[simp] theorem Tree.info_mk (i : NodeInfo) (k : List Tree) : (Tree.mk i k).info = i := rfl
+@[simp] theorem Tree.kids_mk (i : NodeInfo) (k : List Tree) : (Tree.mk i k).kids = k := rfl
+@[simp] theorem Tree.name_mk (i : NodeInfo) (k : List Tree) : (Tree.mk i k).name = i.name := rfl
+
 end EmdModel
